@@ -159,7 +159,7 @@ def run_case(case, ctx):
         counters = [r[0] for r in obs['raw'] if isinstance(r, list) and r[1] is True]
         if counters != list(range(1, len(counters) + 1)):
             out.viol('raw_counters_not_consecutive', site, repr(counters))
-        if any(isinstance(r, dict) for r in obs['raw']):
+        if any(isinstance(r, dict) and 'odd' in r for r in obs['raw']):
             out.viol('malformed_raw_message', site, repr(obs['raw'])[:200])
     if case['pipe'] == 'default' and end == 'stopped':
         ae = obs.get('after_end')
